@@ -13,6 +13,14 @@
 //! * `fill`      oracle only (no hook involved): the property itself evaluated at every vertex of
 //!               real fills through `tessellate_with_ids` / `tessellate_path` /
 //!               `builder_with_attributes`.
+//!
+//! The families that go through the real `FillTessellator` (`fill`, `vertex:32`) run on an object
+//! WITH A HISTORY in half of the cases (see `Hist`): earlier calls with the same geometry and other
+//! attribute values / another attribute count / another entry point, the identical call, unrelated
+//! paths, calls aborted by the builder at the k-th vertex; every call of the history is checked,
+//! and `interpolated_attributes()` is called 1-3 times per vertex in varying positions relative to
+//! the other accessors (`Query`). A `FillVertex` borrows the tessellator's attribute buffer
+//! mutably and is consumed by `add_fill_vertex`, so queries on different vertices cannot interleave.
 
 use std::collections::HashMap;
 
@@ -370,15 +378,58 @@ impl Cfg {
 struct VRec {
     pos: Point,
     sources: Vec<VertexSource>,
+    /// what the LAST call of `interpolated_attributes()` on this vertex returned
     attrs: Vec<f32>,
+    /// what every call of `interpolated_attributes()` on this vertex returned, in call order
+    /// (empty: the builder did not ask this vertex for its attributes)
+    calls: Vec<Vec<f32>>,
     ep: Option<EndpointId>,
     recs: Vec<VerifEdgeRecord>,
 }
 
-#[derive(Default)]
+/// How a geometry builder uses the `FillVertex` it is handed. The attribute buffer behind
+/// `interpolated_attributes()` belongs to the tessellator object and is shared by all vertices of
+/// all calls, so the way it is read is part of the input.
+#[derive(Clone, Copy, Debug)]
+struct Query {
+    /// calls of `interpolated_attributes()` per vertex that is asked (1..=3)
+    reps: u8,
+    /// 0: all calls after `sources()` / `as_endpoint_id()` (the only order used before histories
+    /// existed); 1: the first call before any other accessor; 2: one call between `sources()` and
+    /// `as_endpoint_id()`, the others at the end
+    order: u8,
+    /// vertex number i (0-based, per call) is asked for its attributes iff bit (i mod 64) is set
+    mask: u64,
+    /// the builder refuses the k-th vertex (1-based; 0 = never): the call is aborted
+    refuse: usize,
+    /// the refused vertex is inspected like every other one before it is refused
+    look_first: bool,
+}
+
+impl Query {
+    const PLAIN: Query = Query { reps: 1, order: 0, mask: u64::MAX, refuse: 0, look_first: false };
+    fn name(&self) -> String {
+        format!(
+            "q{}{}{}{}",
+            self.reps,
+            ["", "-attrs-first", "-attrs-interleaved"][self.order as usize],
+            if self.mask == u64::MAX { "" } else if self.mask == 0 { "-asks-none" } else { "-asks-some" },
+            if self.refuse == 0 { String::new() } else { format!("-refuse{}{}", self.refuse, if self.look_first { "-after-look" } else { "" }) }
+        )
+    }
+}
+
 struct Collect {
+    q: Query,
+    seen: usize,
     verts: Vec<VRec>,
     tris: usize,
+}
+
+impl Collect {
+    fn new(q: Query) -> Collect {
+        Collect { q, seen: 0, verts: Vec::new(), tris: 0 }
+    }
 }
 
 impl GeometryBuilder for Collect {
@@ -389,12 +440,32 @@ impl GeometryBuilder for Collect {
 
 impl FillGeometryBuilder for Collect {
     fn add_fill_vertex(&mut self, mut v: FillVertex) -> Result<VertexId, GeometryBuilderError> {
+        let ask = (self.q.mask >> (self.seen % 64)) & 1 == 1;
+        self.seen += 1;
+        let refuse = self.q.refuse != 0 && self.seen == self.q.refuse;
+        if refuse && !self.q.look_first {
+            return Err(GeometryBuilderError::InvalidVertex);
+        }
+        let reps = if ask { self.q.reps.max(1) as usize } else { 0 };
+        let mut calls: Vec<Vec<f32>> = Vec::new();
+        if reps > 0 && self.q.order == 1 {
+            calls.push(v.interpolated_attributes().to_vec());
+        }
         let pos = v.position();
         let sources: Vec<VertexSource> = v.sources().collect();
+        if reps > 1 && self.q.order == 2 {
+            calls.push(v.interpolated_attributes().to_vec());
+        }
         let ep = v.as_endpoint_id();
         let recs = v.verif_sibling_records();
-        let attrs = v.interpolated_attributes().to_vec();
-        self.verts.push(VRec { pos, sources, attrs, ep, recs });
+        while calls.len() < reps {
+            calls.push(v.interpolated_attributes().to_vec());
+        }
+        let attrs = calls.last().cloned().unwrap_or_default();
+        self.verts.push(VRec { pos, sources, attrs, calls, ep, recs });
+        if refuse {
+            return Err(GeometryBuilderError::InvalidVertex);
+        }
         Ok(VertexId((self.verts.len() - 1) as u32))
     }
 }
@@ -406,10 +477,15 @@ struct Run {
     err: Option<String>,
 }
 
+/// one call of the real tessellator on a NEW object
 fn run_fill(spec: &Spec, at: &AttrSpec, cfg: &Cfg) -> Run {
+    fill_on(&mut FillTessellator::new(), spec, at, cfg, Query::PLAIN)
+}
+
+/// one call of the real tessellator on the given object (whatever it has been through)
+fn fill_on(tess: &mut FillTessellator, spec: &Spec, at: &AttrSpec, cfg: &Cfg, q: Query) -> Run {
     let opts = cfg.options();
-    let mut tess = FillTessellator::new();
-    let mut out = Collect::default();
+    let mut out = Collect::new(q);
     let mut ids: Vec<u32> = Vec::new();
     let mut k = 0usize;
     let res;
@@ -462,6 +538,129 @@ fn run_fill(spec: &Spec, at: &AttrSpec, cfg: &Cfg) -> Run {
         }
     }
     Run { ids: Some(ids), verts: out.verts, err: res.err().map(|e| format!("{:?}", e)) }
+}
+
+// ---------------------------------------------------------------------------------------------
+// The history of the tessellator object
+//
+// The property speaks about every vertex handed to the geometry builder during a fill, by
+// whichever `FillTessellator` object: not only by one created for that call. The event queue, the
+// edge records and the attribute buffer that `sources()` / `interpolated_attributes()` read live
+// in the object and are reused from call to call. About half of the end-to-end cases therefore
+// run on an object that has served 1-3 earlier calls: the SAME geometry with other attribute
+// values (a recoloured shape: all event ids coincide), with another number of attributes, through
+// another entry point / rule / orientation, the identical call, or an unrelated path; each of
+// them possibly aborted by its geometry builder at the k-th vertex, and each read by a builder
+// with its own habits (`Query`). Every call of the history is itself a fill: its vertices are
+// checked like those of the last call.
+
+#[derive(Clone, Debug)]
+struct HStep {
+    spec: Spec,
+    at: AttrSpec,
+    cfg: Cfg,
+    q: Query,
+    kind: &'static str,
+}
+
+#[derive(Clone, Debug)]
+struct Hist {
+    steps: Vec<HStep>,
+    /// how the builder of the call under test reads its vertices (never refuses, asks every vertex)
+    q: Query,
+}
+
+/// new attribute values (same count, same kind) for the same endpoints
+fn regen_attrs(rng: &mut Rng, spec: &Spec, n: usize) -> AttrSpec {
+    let pts = spec.endpoints();
+    if n > 0 && rng.chance(1, 3) {
+        let co: Vec<[f32; 3]> = (0..n)
+            .map(|_| [rng.range(-8, 8) as f32 * 0.5, rng.range(-4, 4) as f32 * 0.25, rng.range(-4, 4) as f32 * 0.25])
+            .collect();
+        let values = pts.iter().map(|p| co.iter().map(|c| c[0] + c[1] * p.x + c[2] * p.y).collect()).collect();
+        AttrSpec { n, values, affine: Some(co) }
+    } else {
+        let values = pts.iter().map(|_| (0..n).map(|_| rng.range(-64, 64) as f32 * 0.25).collect()).collect();
+        AttrSpec { n, values, affine: None }
+    }
+}
+
+impl Hist {
+    fn fresh() -> Hist {
+        Hist { steps: Vec::new(), q: Query::PLAIN }
+    }
+
+    /// Drawn from the case's RNG AFTER everything else, so that (seed, case id) regenerates the
+    /// same path, attributes and configuration as before histories were added.
+    fn gen(rng: &mut Rng, spec: &Spec, at: &AttrSpec, cfg: &Cfg) -> Hist {
+        let q = Query { reps: 1 + rng.below(3) as u8, order: rng.below(3) as u8, mask: u64::MAX, refuse: 0, look_first: false };
+        let mut steps = Vec::new();
+        if rng.chance(1, 2) {
+            for _ in 0..rng.range(1, 3) {
+                let (s, a, c, kind) = match rng.below(8) {
+                    0 | 1 | 2 => (spec.clone(), regen_attrs(rng, spec, at.n), *cfg, "same-geometry-other-values"),
+                    3 => {
+                        let a = gen_attrs(rng, spec);
+                        let mut c = *cfg;
+                        if rng.chance(1, 2) {
+                            c.entry = rng.below(3) as usize;
+                        }
+                        (spec.clone(), a, c, "same-geometry-other-count")
+                    }
+                    4 => (spec.clone(), at.clone(), Cfg::gen(rng).for_spec(spec), "same-geometry-other-entry"),
+                    5 => (spec.clone(), at.clone(), *cfg, "same-call"),
+                    _ => {
+                        let s = gen_spec(rng);
+                        let a = gen_attrs(rng, &s);
+                        let c = Cfg::gen(rng).for_spec(&s);
+                        (s, a, c, "other-path")
+                    }
+                };
+                let mask = match rng.below(4) {
+                    0 | 1 => u64::MAX,
+                    2 => rng.next(),
+                    _ => rng.next() & rng.next() & rng.next(),
+                };
+                let refuse = if rng.chance(1, 3) { rng.range(1, 12) as usize } else { 0 };
+                let sq = Query { reps: 1 + rng.below(3) as u8, order: rng.below(3) as u8, mask, refuse, look_first: rng.chance(1, 2) };
+                steps.push(HStep { spec: s, at: a, cfg: c, q: sq, kind });
+            }
+        }
+        Hist { steps, q }
+    }
+
+    fn tag(&self) -> String {
+        if self.steps.is_empty() {
+            return "hist=fresh".to_string();
+        }
+        let same = self.steps.iter().any(|s| s.kind != "other-path");
+        let aborted = self.steps.iter().any(|s| s.q.refuse != 0);
+        format!("hist=used{}{}", if same { "+same-geometry" } else { "" }, if aborted { "+aborted" } else { "" })
+    }
+
+    fn describe(&self) -> String {
+        let mut v: Vec<String> = self.steps.iter().map(|s| format!("{}:{}:attrs={}:{}", s.kind, s.cfg.name().replace(' ', "-"), s.at.n, s.q.name())).collect();
+        v.push(format!("under-test:{}", self.q.name()));
+        v.join(",")
+    }
+}
+
+struct CaseRun {
+    /// the calls of the history, in order
+    hist: Vec<Run>,
+    /// the call under test
+    main: Run,
+}
+
+/// the history's calls, then the call under test, all on ONE tessellator object
+fn run_case(spec: &Spec, at: &AttrSpec, cfg: &Cfg, hist: &Hist) -> CaseRun {
+    let mut tess = FillTessellator::new();
+    let mut runs = Vec::new();
+    for s in &hist.steps {
+        runs.push(fill_on(&mut tess, &s.spec, &s.at, &s.cfg, s.q));
+    }
+    let main = fill_on(&mut tess, spec, at, cfg, hist.q);
+    CaseRun { hist: runs, main }
 }
 
 // ---------------------------------------------------------------------------------------------
@@ -723,13 +922,87 @@ impl Fails {
     }
 }
 
+/// the input edge (or curve) an edge source names
+// (an edge following a repeated point / a curve that flattens to nothing keeps the id of the first
+// copy of the point: the builders return early without advancing `prev_endpoint_id`; such an edge
+// is identified through its `to` id and the position of its start)
+fn find_geom<'a>(geom: &'a HashMap<(u32, u32), Geom>, pos_of: &HashMap<u32, Point>, from: EndpointId, to: EndpointId) -> Option<&'a Geom> {
+    geom.get(&(from.0, to.0)).or_else(|| {
+        let (pf, pt) = (pos_of.get(&from.0)?, pos_of.get(&to.0)?);
+        let mut c: Vec<(&(u32, u32), &Geom)> = geom.iter().filter(|(k, g)| k.1 == to.0 && g.a == *pf && g.seg.to() == *pt).collect();
+        c.sort_by_key(|(k, _)| **k);
+        c.first().map(|(_, g)| *g)
+    })
+}
+
+/// distance between a vertex and the point its edge source names: `lerp(from, to, t)` for a line,
+/// the point at parameter t of the tessellator's own flattening for a curve (either direction of
+/// flattening for a curve drawn against the sweep)
+fn source_deviation(g: &Geom, t: f64, v: Point, cfg: &Cfg) -> f64 {
+    match &g.seg {
+        Seg::Line(b) => dist64(lerp64(g.a, *b, t), v),
+        curve => {
+            let flat = flatten_seg(g.a, curve, false, cfg.tol, cfg.orientation);
+            let mut d = at_param(&flat, t).map_or(f64::INFINITY, |h| dist64(h.3, v));
+            if is_after(sweep(g.a, cfg.orientation), sweep(curve.to(), cfg.orientation)) {
+                let rflat = flatten_seg(g.a, curve, true, cfg.tol, cfg.orientation);
+                d = d.min(at_param(&rflat, 1.0 - t).map_or(f64::INFINITY, |h| dist64(h.3, v)));
+            }
+            d
+        }
+    }
+}
+
+/// `is_near` of fill.rs: an intersection within this distance of an edge end is moved onto it
+const SNAP: f64 = 3.1623e-5;
+
 fn check_run(spec: &Spec, at: &AttrSpec, cfg: &Cfg, run: &Run, orc: &mut Oracle) {
     let mut f = Fails(Vec::new());
-    check_run_inner(spec, at, cfg, run, &mut f);
+    check_run_inner(spec, at, cfg, run, &mut f, true);
     f.into_oracle(orc);
 }
 
-fn check_run_inner(spec: &Spec, at: &AttrSpec, cfg: &Cfg, run: &Run, orc: &mut Fails) {
+/// The property at every vertex of every call made on the case's tessellator object: the calls of
+/// the history first (each is a fill like any other), then the call under test. Returns `false`
+/// when the call under test ended with an error (nothing to say about it).
+///
+/// A call that its geometry builder aborted handed over only the first k vertices: the clauses
+/// that need no other vertex are evaluated on them (at least one source, attribute count,
+/// attributes = average over the reported sources); the position clauses are evaluated on
+/// complete calls only, because the witness classes of the listed findings are predicates over
+/// the complete vertex list.
+fn check_case(spec: &Spec, at: &AttrSpec, cfg: &Cfg, hist: &Hist, runs: &CaseRun, orc: &mut Oracle) -> bool {
+    let mut f = Fails(Vec::new());
+    let n = hist.steps.len();
+    for (i, (s, r)) in hist.steps.iter().zip(runs.hist.iter()).enumerate() {
+        let aborted = s.q.refuse != 0 && r.err.is_some();
+        if r.err.is_some() && !aborted {
+            continue;
+        }
+        let mut g = Fails(Vec::new());
+        check_run_inner(&s.spec, &s.at, &s.cfg, r, &mut g, !aborted);
+        for (clause, class, detail) in g.0 {
+            if f.0.len() < 64 {
+                f.0.push((clause, class, format!("call {} of {} on this tessellator ({} {} {}{}): {}", i + 1, n + 1, s.kind, s.cfg.name().replace(' ', "-"), s.q.name(), if aborted { " aborted" } else { "" }, detail)));
+            }
+        }
+    }
+    let main_ok = runs.main.err.is_none();
+    if main_ok {
+        let mut g = Fails(Vec::new());
+        check_run_inner(spec, at, cfg, &runs.main, &mut g, true);
+        for (clause, class, detail) in g.0 {
+            if f.0.len() < 64 {
+                let d = if n == 0 { detail } else { format!("call {} of {} on this tessellator (after {}): {}", n + 1, n + 1, hist.describe(), detail) };
+                f.0.push((clause, class, d));
+            }
+        }
+    }
+    f.into_oracle(orc);
+    main_ok
+}
+
+fn check_run_inner(spec: &Spec, at: &AttrSpec, cfg: &Cfg, run: &Run, orc: &mut Fails, full: bool) {
     let scale = spec.scale();
     // position envelope = rounding + fill tolerance.  Rounding: the tessellator snaps an
     // intersection to an edge end within 3.2e-5 (`is_near`), plus 64 ulp of the magnitude.
@@ -779,10 +1052,39 @@ fn check_run_inner(spec: &Spec, at: &AttrSpec, cfg: &Cfg, run: &Run, orc: &mut F
         k += 1;
     }
     let maxattr = at.values.iter().flat_map(|v| v.iter()).fold(1.0f64, |m, x| m.max(x.abs() as f64));
+    // Snaps compound. A cut that `is_near` moved onto an edge end (up to SNAP away from the edge
+    // being cut) becomes the start of the remaining part of that edge: the part is displaced by up
+    // to SNAP at its start (nothing at its far end), and a later cut of it is computed on the
+    // displaced part and may be snapped again. `env` covers ONE snap. For each input edge, the
+    // vertices that list it visibly off their own point (beyond rounding: `lvl - 4e-5`) are the
+    // evidence of such displaced cuts; every one of them (at most two are counted) adds one SNAP to
+    // what the OTHER vertices listing the same edge are allowed. (Seen only on paths a few
+    // thousand SNAPs across: thin spikes at extent 0.01 crossed twice near the apex.)
+    let mut displaced: HashMap<(u32, u32), Vec<usize>> = HashMap::new();
+    if full {
+        for (vi, v) in run.verts.iter().enumerate() {
+            for s in &v.sources {
+                if let VertexSource::Edge { from, to, t } = *s {
+                    if let Some(g) = find_geom(&geom, &pos_of, from, to) {
+                        let d = source_deviation(g, t as f64, v.pos, cfg);
+                        if d > lvl - 4e-5 && d <= env {
+                            let e = displaced.entry((from.0, to.0)).or_default();
+                            if !e.contains(&vi) {
+                                e.push(vi);
+                            }
+                        }
+                    }
+                }
+            }
+        }
+    }
+    let env_base = env;
     for (vi, v) in run.verts.iter().enumerate() {
         let before = orc.0.len();
+        // (the widest position allowance among this vertex's sources: the affine clause is about the same positions)
+        let mut venv = env_base;
         // --- every source lies where it says
-        for s in &v.sources {
+        for s in v.sources.iter().filter(|_| full) {
             match *s {
                 VertexSource::Endpoint { id } => match pos_of.get(&id.0) {
                     None => orc.check(false, "fill.vertex/endpoint-source-known", "generic", || format!("vertex {} source endpoint {} is not an endpoint of the path", vi, id.0)),
@@ -799,19 +1101,13 @@ fn check_run_inner(spec: &Spec, at: &AttrSpec, cfg: &Cfg, run: &Run, orc: &mut F
                         }
                     }
                 },
-                // (an edge following a repeated point / a curve that flattens to nothing keeps the id
-                // of the first copy of the point: the builders return early without advancing
-                // `prev_endpoint_id`; such an edge is identified through its `to` id and the
-                // position of its start)
-                VertexSource::Edge { from, to, t } => match geom.get(&(from.0, to.0)).or_else(|| {
-                    let (pf, pt) = (pos_of.get(&from.0)?, pos_of.get(&to.0)?);
-                    let mut c: Vec<(&(u32, u32), &Geom)> = geom.iter().filter(|(k, g)| k.1 == to.0 && g.a == *pf && g.seg.to() == *pt).collect();
-                    c.sort_by_key(|(k, _)| **k);
-                    c.first().map(|(_, g)| *g)
-                }) {
+                VertexSource::Edge { from, to, t } => match find_geom(&geom, &pos_of, from, to) {
                     None => orc.check(false, "fill.vertex/edge-source-known", "generic", || format!("vertex {} source edge {}->{} is not an edge of the path", vi, from.0, to.0)),
                     Some(g) => {
                         let tt = t as f64;
+                        let earlier_snaps = displaced.get(&(from.0, to.0)).map_or(0, |l| l.iter().filter(|wi| **wi != vi).count().min(2));
+                        let env = env_base + SNAP * earlier_snaps as f64;
+                        venv = venv.max(env);
                         let range_ok = tt.is_finite() && tt >= -1e-6 && tt <= 1.0 + 1e-6;
                         let clause = |c: &'static str| if range_ok { c } else { "fill.vertex/edge-source-parameter-range" };
                         match &g.seg {
@@ -886,7 +1182,7 @@ fn check_run_inner(spec: &Spec, at: &AttrSpec, cfg: &Cfg, run: &Run, orc: &mut F
                 },
             }
         }
-        if let Some(id) = v.ep {
+        if let (Some(id), true) = (v.ep, full) {
             let good = pos_of.get(&id.0).map_or(false, |p| *p == v.pos || (dist64((p.x as f64, p.y as f64), v.pos) <= lvl && has_twin(&run.verts, vi, 8.0 * lvl)));
             let class = if good { "generic" } else { pos_of.get(&id.0).map_or("generic", |p| classify_endpoint(&geom, *p, v.pos, cfg.orientation, cfg.tol, lvl, id.0, &run.verts, vi)) };
             orc.check(good, "fill.vertex/as-endpoint-id-position", class, || {
@@ -898,9 +1194,12 @@ fn check_run_inner(spec: &Spec, at: &AttrSpec, cfg: &Cfg, run: &Run, orc: &mut F
         }
         // a wrong source of a listed class makes the attributes of this vertex wrong as a consequence
         let vclass: String = orc.0[before..].first().map_or("generic".to_string(), |f| f.1.clone());
-        // --- interpolated attributes = average over the sources of the lerped endpoint attributes
-        if at.n > 0 {
-            orc.check(v.attrs.len() == at.n, "fill.vertex/attributes-count", "generic", || format!("vertex {}: {} attributes, expected {}", vi, v.attrs.len(), at.n));
+        // --- interpolated attributes = average over the sources of the lerped endpoint attributes,
+        //     at EVERY call of `interpolated_attributes()` on this vertex
+        if at.n > 0 && !v.calls.is_empty() {
+            for (ci, got) in v.calls.iter().enumerate() {
+                orc.check(got.len() == at.n, "fill.vertex/attributes-count", "generic", || format!("vertex {} (query {} of {}): {} attributes, expected {}", vi, ci + 1, v.calls.len(), got.len(), at.n));
+            }
             let mut exp = vec![0.0f64; at.n];
             let mut ok = true;
             for s in &v.sources {
@@ -915,21 +1214,23 @@ fn check_run_inner(spec: &Spec, at: &AttrSpec, cfg: &Cfg, run: &Run, orc: &mut F
                     },
                 }
             }
-            if ok && v.attrs.len() == at.n && !v.sources.is_empty() {
+            if ok && !v.sources.is_empty() {
                 let nsrc = v.sources.len() as f64;
-                for j in 0..at.n {
-                    let e = exp[j] / nsrc;
-                    let allowed = 8.0 * EPS32 * maxattr * (nsrc + 1.0);
-                    orc.check((v.attrs[j] as f64 - e).abs() <= allowed, "fill.vertex/attributes-average", "generic", || {
-                        format!("vertex {} at {:?}: attribute {} = {}, average over {} sources = {}", vi, v.pos, j, v.attrs[j], nsrc, e)
-                    });
+                for (ci, got) in v.calls.iter().enumerate().filter(|(_, g)| g.len() == at.n) {
+                    for j in 0..at.n {
+                        let e = exp[j] / nsrc;
+                        let allowed = 8.0 * EPS32 * maxattr * (nsrc + 1.0);
+                        orc.check((got[j] as f64 - e).abs() <= allowed, "fill.vertex/attributes-average", "generic", || {
+                            format!("vertex {} at {:?} (query {} of {}): attribute {} = {}, average over {} sources = {}", vi, v.pos, ci + 1, v.calls.len(), j, got[j], nsrc, e)
+                        });
+                    }
                 }
             }
             // --- affine attributes are reproduced (polygonal paths)
-            if let (Some(co), false) = (&at.affine, spec.has_curves()) {
+            if let (Some(co), false, true) = (&at.affine, spec.has_curves(), full) {
                 for j in 0..at.n.min(v.attrs.len()) {
                     let g = co[j][0] as f64 + co[j][1] as f64 * v.pos.x as f64 + co[j][2] as f64 * v.pos.y as f64;
-                    let allowed = (co[j][1].abs() + co[j][2].abs()) as f64 * env + 32.0 * EPS32 * maxattr;
+                    let allowed = (co[j][1].abs() + co[j][2].abs()) as f64 * venv + 32.0 * EPS32 * maxattr;
                     orc.check((v.attrs[j] as f64 - g).abs() <= allowed, "fill.vertex/affine-attributes-reproduced", &vclass, || {
                         format!("vertex {} at {:?}: attribute {} = {}, affine function of the position = {} (allowed {:.1e})", vi, v.pos, j, v.attrs[j], g, allowed)
                     });
@@ -958,43 +1259,60 @@ fn fill_case(ctx: &mut Ctx) {
         let spec = gen_spec(rng);
         let at = gen_attrs(rng, &spec);
         let cfg = Cfg::gen(rng).for_spec(&spec);
+        // (after everything else: the path, attributes and configuration of a (seed, case id) are
+        // what they were before histories existed)
+        let hist = Hist::gen(rng, &spec, &at, &cfg);
         let mut args = Out::new();
         args.t(&spec.kind).u(at.n as u64).t(&cfg.name().replace(' ', "-")).f(cfg.tol);
         for p in spec.all_points() {
             args.p(p);
         }
+        args.t("history").u(hist.steps.len() as u64).t(&hist.describe());
         let trivial = spec.endpoints().len() < 3;
-        let tag = format!(
-            "fill {} attrs={}{} {}{}",
-            spec.kind,
-            at.n,
-            if at.affine.is_some() { " affine" } else { "" },
-            cfg.name(),
-            if trivial { " trivial" } else { "" }
-        );
-        (args, tag, move || {
-            let mut o = Out::new();
-            let mut orc = Oracle::new();
-            match vh::guarded(|| run_fill(&spec, &at, &cfg)) {
-                None => {
-                    o.t("panic-in-fill");
-                    orc.skip("tessellator-panic");
-                }
-                Some(run) => {
-                    if let Some(e) = &run.err {
-                        o.t("err");
-                        orc.skip(&format!("tessellation-error {}", e.replace(' ', "_")));
-                    } else {
-                        let nsrc: usize = run.verts.iter().map(|v| v.sources.len()).sum();
-                        let nedge = run.verts.iter().flat_map(|v| v.sources.iter()).filter(|s| s.is_edge()).count();
-                        o.t("verts").u(run.verts.len() as u64).t("sources").u(nsrc as u64).t("edge-sources").u(nedge as u64);
-                        check_run(&spec, &at, &cfg, &run, &mut orc);
-                    }
-                }
-            }
-            CaseOut { imp: o, orcl: orc.verdict }
-        })
+        // (the evidence keeps the most frequent tags: cases on a used object are tagged by their
+        // history rather than by path kind x configuration, so that the share is visible there)
+        let tag = if hist.steps.is_empty() {
+            format!(
+                "fill {} attrs={}{} {}{}",
+                spec.kind,
+                at.n,
+                if at.affine.is_some() { " affine" } else { "" },
+                cfg.name(),
+                if trivial { " trivial" } else { "" }
+            )
+        } else {
+            format!("fill used-object {} attrs={} {}{}", hist.tag(), if at.n > 0 { "some" } else { "0" }, ENTRIES[cfg.entry], if trivial { " trivial" } else { "" })
+        };
+        (args, tag, move || fill_verdict(&spec, &at, &cfg, &hist))
     });
+}
+
+/// run the history and the call under test on one object and evaluate the property on all of it
+fn fill_verdict(spec: &Spec, at: &AttrSpec, cfg: &Cfg, hist: &Hist) -> CaseOut {
+    let mut o = Out::new();
+    let mut orc = Oracle::new();
+    match vh::guarded(|| run_case(spec, at, cfg, hist)) {
+        None => {
+            o.t("panic-in-fill");
+            orc.skip("tessellator-panic");
+        }
+        Some(runs) => {
+            let run = &runs.main;
+            if run.err.is_none() {
+                let nsrc: usize = run.verts.iter().map(|v| v.sources.len()).sum();
+                let nedge = run.verts.iter().flat_map(|v| v.sources.iter()).filter(|s| s.is_edge()).count();
+                o.t("verts").u(run.verts.len() as u64).t("sources").u(nsrc as u64).t("edge-sources").u(nedge as u64);
+            } else {
+                o.t("err");
+            }
+            // (a failure in a call of the history is reported even when the call under test ended with an error)
+            check_case(spec, at, cfg, hist, &runs, &mut orc);
+            if let Some(e) = &run.err {
+                orc.skip(&format!("tessellation-error {}", e.replace(' ', "_")));
+            }
+        }
+    }
+    CaseOut { imp: o, orcl: orc.verdict }
 }
 
 /// Tie of `sources()` / `as_endpoint_id()` / `interpolated_attributes()` to the model: the
@@ -1011,11 +1329,20 @@ fn vertex_case(ctx: &mut Ctx) {
         if cfg.entry == 1 && at.n == 0 {
             cfg.entry = 0;
         }
-        let run = vh::guarded(|| run_fill(&spec, &at, &cfg));
+        // the object that produces the records and attributes handed to the model has a history
+        // too (drawn last); the model's `interpolated_attributes` is a function of the vertex's
+        // records and the store alone, so the tie decides that nothing else leaks in
+        let hist = Hist::gen(rng, &spec, &at, &cfg);
+        let runs = vh::guarded(|| run_case(&spec, &at, &cfg, &hist));
+        let run = runs.as_ref().map(|r| &r.main);
         let mut args = Out::new();
         let mut imp = Out::new();
-        let mut tag = format!("vertex {} attrs={} {}", spec.kind, at.n, cfg.name());
-        match &run {
+        let mut tag = if hist.steps.is_empty() {
+            format!("vertex {} attrs={} {}", spec.kind, at.n, cfg.name())
+        } else {
+            format!("vertex used-object {} attrs={} {}", hist.tag(), if at.n > 0 { "some" } else { "0" }, ENTRIES[cfg.entry])
+        };
+        match run {
             Some(r) if r.err.is_none() && r.ids.is_some() => {
                 let ids = r.ids.as_ref().unwrap();
                 args.u(at.n as u64).u(ids.len() as u64);
@@ -1055,7 +1382,15 @@ fn vertex_case(ctx: &mut Ctx) {
                 tag += " trivial no-output";
             }
         }
-        (args, tag, move || CaseOut { imp, orcl: Oracle::new().verdict })
+        (args, tag, move || {
+            // the property itself on every call made on that object (the runs are part of the
+            // generated case: they are not repeated here)
+            let mut orc = Oracle::new();
+            if let Some(r) = &runs {
+                check_case(&spec, &at, &cfg, &hist, r, &mut orc);
+            }
+            CaseOut { imp, orcl: orc.verdict }
+        })
     });
 }
 
@@ -1303,6 +1638,57 @@ fn corpus_collinear(ctx: &mut Ctx) {
     });
 }
 
+/// Fixed inputs with a history (run LAST, so that the ids of the generated cases stay what they
+/// were): one tessellator object, the same outline tessellated again with other attribute values /
+/// another attribute count / after an aborted call. The bow-tie has exactly one vertex that needs
+/// interpolation (the crossing), the two crossing rectangles of `fill_vertex_source_02` have two.
+fn corpus_history(ctx: &mut Ctx) {
+    let bowtie = Spec::poly(vec![(vec![point(0.0, 0.0), point(10.0, 10.0), point(10.0, 0.0), point(0.0, 10.0)], true)], "corpus-history-bowtie");
+    let rects = Spec::poly(
+        vec![
+            (vec![point(1.0, 1.0), point(5.0, 1.0), point(5.0, 5.0), point(1.0, 5.0)], true),
+            (vec![point(3.0, 3.0), point(7.0, 3.0), point(7.0, 7.0), point(3.0, 7.0)], true),
+        ],
+        "corpus-history-rects",
+    );
+    let mut variant = 0u64;
+    for spec in [bowtie, rects] {
+        for entry in 0..3usize {
+            for orient in [Orientation::Vertical, Orientation::Horizontal] {
+                variant += 1;
+                let spec = spec.clone();
+                ctx.case("fill", move |_rng| {
+                    let cfg = Cfg { rule: FillRule::EvenOdd, orientation: orient, tol: 0.01, entry };
+                    let mut r = Rng::new(7, variant);
+                    let at = regen_attrs(&mut r, &spec, 2);
+                    let first = regen_attrs(&mut r, &spec, 2);
+                    let other_count = regen_attrs(&mut r, &spec, 3);
+                    let ask_all = |refuse: usize, reps: u8| Query { reps, order: 0, mask: u64::MAX, refuse, look_first: true };
+                    // which history: a plain earlier call / another count in between / the earlier call aborted right after its
+                    // first interpolated vertex
+                    let steps = match variant % 3 {
+                        0 => vec![HStep { spec: spec.clone(), at: first, cfg, q: ask_all(0, 1), kind: "same-geometry-other-values" }],
+                        1 => vec![
+                            HStep { spec: spec.clone(), at: other_count, cfg, q: ask_all(0, 2), kind: "same-geometry-other-count" },
+                            HStep { spec: spec.clone(), at: first, cfg, q: ask_all(0, 1), kind: "same-geometry-other-values" },
+                        ],
+                        _ => {
+                            let fresh = run_fill(&spec, &first, &cfg);
+                            let k = fresh.verts.iter().position(|v| v.sources.len() > 1 || v.sources.iter().any(|s| s.is_edge())).map_or(0, |i| i + 1);
+                            vec![HStep { spec: spec.clone(), at: first, cfg, q: ask_all(k, 1), kind: "same-geometry-other-values" }]
+                        }
+                    };
+                    let hist = Hist { steps, q: Query { reps: 2, order: 2, mask: u64::MAX, refuse: 0, look_first: false } };
+                    let mut args = Out::new();
+                    args.t(&spec.kind).u(at.n as u64).t(&cfg.name().replace(' ', "-")).f(cfg.tol).t("history").u(hist.steps.len() as u64).t(&hist.describe());
+                    let tag = format!("fill {} attrs={} {} {}", spec.kind, at.n, cfg.name(), hist.tag());
+                    (args, tag, move || fill_verdict(&spec, &at, &cfg, &hist))
+                });
+            }
+        }
+    }
+}
+
 fn main() {
     let mut ctx = Ctx::from_args("C07");
     corpus(&mut ctx);
@@ -1323,5 +1709,6 @@ fn main() {
     for _ in 0..n_fill {
         fill_case(&mut ctx);
     }
+    corpus_history(&mut ctx);
     ctx.finish();
 }
